@@ -24,18 +24,24 @@ Phases == <<"argv", "options", "tmp", "parse", "detect", "copy", "golden",
 (* faults and the phase in which they surface *)
 Faults == {"none", "input-missing", "input-is-directory", "command-missing",
            "command-not-a-file", "command-not-executable",
-           "match-out-absent", "match-err-absent", "interrupt"}
+           "match-out-absent", "match-err-absent", "interrupt",
+           \* the golden run itself exceeds an explicit time limit: it has
+           \* no output, so a configured match string is absent from it
+           "golden-timeout", "golden-timeout-match-out",
+           "golden-timeout-match-err"}
 
 FaultPhase(f) ==
   CASE f \in {"input-missing", "input-is-directory", "command-missing",
               "command-not-a-file", "command-not-executable"} -> "options"
-    [] f \in {"match-out-absent", "match-err-absent"} -> "golden"
+    [] f \in {"match-out-absent", "match-err-absent",
+              "golden-timeout-match-out", "golden-timeout-match-err"} -> "golden"
     [] f = "interrupt" -> "reduce"
     [] OTHER -> "report"
 
 Outcome(f) ==
-  CASE f = "none" -> "completed"
-    [] f \in {"match-out-absent", "match-err-absent"} -> "nomatch"
+  CASE f \in {"none", "golden-timeout"} -> "completed"
+    [] f \in {"match-out-absent", "match-err-absent",
+              "golden-timeout-match-out", "golden-timeout-match-err"} -> "nomatch"
     [] f = "interrupt" -> "interrupted"
     [] OTHER -> "usage"
 
@@ -55,12 +61,12 @@ Advance == /\ ~done /\ phase # "report" /\ phase # FaultPhase(fault)
            /\ phase' = Phases[Idx(phase) + 1]
            /\ UNCHANGED <<fault, outcome, status, done, entry, strategy>>
 
-Fail == /\ ~done /\ fault # "none" /\ phase = FaultPhase(fault)
+Fail == /\ ~done /\ Outcome(fault) # "completed" /\ phase = FaultPhase(fault)
         /\ outcome' = Outcome(fault) /\ status' = Status(Outcome(fault))
         /\ done' = TRUE
         /\ UNCHANGED <<phase, fault, entry, strategy>>
 
-Report == /\ ~done /\ fault = "none" /\ phase = "report"
+Report == /\ ~done /\ Outcome(fault) = "completed" /\ phase = "report"
           /\ outcome' = "completed" /\ status' = 0 /\ done' = TRUE
           /\ UNCHANGED <<phase, fault, entry, strategy>>
 
